@@ -312,6 +312,31 @@ def run(scenario):
         wire = ctx['wire'] = WireLog(w)
         ctx['cov'] = workload.Coverage(w)
         ctx['oracle'] = WindowOracle(w, wire)
+        from sim.wiretap import Wiretap
+        ctx['tap'] = Wiretap(w, check_reencode=False)
+
+        def at_end(w, ctx):
+            # roles of IKE_SAs created by rekey, judged from the wire and not from what the daemons believe: the endpoint that sent the rekey
+            # request is the initiator of the new IKE_SA (RFC 7296 2.18), its SPI comes first and its messages carry the INITIATOR flag
+            tap, orc = ctx['tap'], ctx['oracle']
+            for e in wire.sent:
+                h = e['h']
+                if h is None or h['exch'] == 34 or e['sender'] not in w.nodes or w.poisoned:
+                    continue
+                s = tap.sessions.get((h['spi_i'], h['spi_r']))
+                if s is not None and not s.opaque and s.parent is not None and s.initiator is not None:
+                    orc._r('rekeyed_ike_sa_headers_judged')
+                    if (e['sender'] == s.initiator) != bool(h['I']):
+                        return orc.viol('wrong_initiator_flag', {'exchange': EXCH.get(h['exch'], str(h['exch'])), 'kind': 'response' if h['R'] else 'request',
+                                                                 'role': 'rekeyed'},
+                                        f'{e["sender"]} emitted I={h["I"]} on the IKE_SA {h["spi_i"].hex()} created by a rekey that '
+                                        f'{s.initiator} initiated')
+                sw = tap.sessions.get((h['spi_r'], h['spi_i']))
+                if (s is None or s.opaque) and sw is not None and sw.parent is not None and not sw.opaque:
+                    return orc.viol('spis_swapped_on_rekeyed_ike_sa', {'exchange': EXCH.get(h['exch'], str(h['exch']))},
+                                    f'{e["sender"]} emitted SPIs {h["spi_i"].hex()}/{h["spi_r"].hex()}: the IKE_SA created by the rekey that '
+                                    f'{sw.initiator} initiated has them the other way round (the rekey initiator\'s SPI comes first)')
+        ctx['at_end'] = at_end
 
         def replay(w, op):
             lst = wire.sent
